@@ -160,11 +160,29 @@ func MatchFunctionsByTopology(oldResults, newResults []FingerprintResult, thresh
 			o, n := unmatchedOld[c.oldIdx].Fingerprint, unmatchedNew[c.newIdx].Fingerprint
 			return o != "" && o == n
 		}
+		// Fingerprints abstract most literals, so a near copy that differs only in a string or a
+		// large constant has the same fingerprint too: among those, prefer the candidate whose
+		// string literals (and their entropy) are the same as the old function's.
+		sameLiterals := func(c candidate) bool {
+			o, n := oldTopos[c.oldIdx], newTopos[c.newIdx]
+			if o == nil || n == nil || o.EntropyScore != n.EntropyScore || len(o.StringLiterals) != len(n.StringLiterals) {
+				return false
+			}
+			for k := range o.StringLiterals {
+				if o.StringLiterals[k] != n.StringLiterals[k] {
+					return false
+				}
+			}
+			return true
+		}
 		sort.SliceStable(candidates, func(i, j int) bool {
 			if candidates[i].sim != candidates[j].sim {
 				return candidates[i].sim > candidates[j].sim
 			}
-			return sameBody(candidates[i]) && !sameBody(candidates[j])
+			if bi, bj := sameBody(candidates[i]), sameBody(candidates[j]); bi != bj {
+				return bi
+			}
+			return sameLiterals(candidates[i]) && !sameLiterals(candidates[j])
 		})
 
 		usedOld := make(map[int]bool)
